@@ -1,4 +1,4 @@
-//@ unit u5_marks props C09
+//@ unit u5_marks props C09 C18 also C11
 // Unit U5: which (room, entity, day) buckets of the daily log each kind of write marks for recomputation
 // (daily_log.rs, node.rs, mutation_query.rs, deletion.rs, edge.rs).  The recomputation itself (SQL + hashing over query
 // results) is out of reach; what is decided here is the other half of the mechanism: every write marks every bucket
@@ -197,14 +197,17 @@ impl Node {
     #[verifier::external_body]
     pub fn delete_from_index<P>(query: &str, params: P, conn: &Connection) -> (r: std::result::Result<(), rusqlite::Error>) { unimplemented!() }
 }
+/// the deletion record was handed to the deletion log by a successful write: facts only these contracts establish
+pub uninterp spec fn node_tombstone_written(e: NodeDeletionEntry) -> bool;
+pub uninterp spec fn edge_tombstone_written(e: EdgeDeletionEntry) -> bool;
 impl NodeDeletionEntry {
     /// stores the tombstone (Writeable::write: SQL); the row is not altered
     #[verifier::external_body]
-    pub fn write(&mut self, conn: &Connection) -> (r: std::result::Result<(), rusqlite::Error>) ensures *final(self) == *old(self) { unimplemented!() }
+    pub fn write(&mut self, conn: &Connection) -> (r: std::result::Result<(), rusqlite::Error>) ensures *final(self) == *old(self), r is Ok ==> node_tombstone_written(*old(self)) { unimplemented!() }
 }
 impl EdgeDeletionEntry {
     #[verifier::external_body]
-    pub fn write(&mut self, conn: &Connection) -> (r: std::result::Result<(), rusqlite::Error>) ensures *final(self) == *old(self) { unimplemented!() }
+    pub fn write(&mut self, conn: &Connection) -> (r: std::result::Result<(), rusqlite::Error>) ensures *final(self) == *old(self), r is Ok ==> edge_tombstone_written(*old(self)) { unimplemented!() }
 }
 
 //@ extract src/database/node.rs :: impl NodeDeletionEntry / fn delete_all
@@ -217,6 +220,8 @@ impl EdgeDeletionEntry {
                 it.seq().len() == old(nodes)@.len(), forall|i: int| #![trigger it.seq()[i]] #![trigger old(nodes)@[i]] 0 <= i < it.seq().len() ==> *it.seq()[i] == old(nodes)@[i],
                 forall|i: int| 0 <= i < it.index@ ==> marked(*daily_log, (#[trigger] old(nodes)@[i]).room_id, old(nodes)@[i].entity@, spec_day(old(nodes)@[i].deletion_date))
                     && marked(*daily_log, old(nodes)@[i].room_id, old(nodes)@[i].entity@, spec_day(old(nodes)@[i].mdate)),
+                // [received_node_tombstones_recorded_so_far]{C11}
+                forall|i: int| 0 <= i < it.index@ ==> node_tombstone_written(#[trigger] old(nodes)@[i]),
 //@ spec
         ensures
             // [received_node_tombstones_mark_both_days] every row tombstone applied from a peer marks, in the same batch, the day it enters (deletion date) and the day the deleted row leaves (its modification date)
@@ -224,6 +229,8 @@ impl EdgeDeletionEntry {
                     && marked(*final(daily_log), old(nodes)@[i].room_id, old(nodes)@[i].entity@, spec_day(old(nodes)@[i].mdate)),
             // [received_node_tombstones_keep_marks]
             marks_superset(*old(daily_log), *final(daily_log)),
+            // [received_node_deletion_always_recorded]{C11} every deletion record received from a peer is written to the deletion log - whether or not the row it deletes is stored here: it is what keeps this peer from fetching the row back, later, from a peer that has not seen the deletion, and what this peer hands on
+            r is Ok ==> forall|i: int| 0 <= i < old(nodes)@.len() ==> node_tombstone_written(#[trigger] old(nodes)@[i]),
 //@ end
 
 //@ extract src/database/edge.rs :: impl EdgeDeletionEntry / fn delete_all
@@ -235,12 +242,16 @@ impl EdgeDeletionEntry {
                 marks_superset(*old(daily_log), *daily_log),
                 it.seq().len() == old(edges)@.len(), forall|i: int| #![trigger it.seq()[i]] #![trigger old(edges)@[i]] 0 <= i < it.seq().len() ==> *it.seq()[i] == old(edges)@[i],
                 forall|i: int| 0 <= i < it.index@ ==> marked(*daily_log, (#[trigger] old(edges)@[i]).room_id, old(edges)@[i].src_entity@, spec_day(old(edges)@[i].deletion_date)),
+                // [received_edge_tombstones_recorded_so_far]{C11}
+                forall|i: int| 0 <= i < it.index@ ==> edge_tombstone_written(#[trigger] old(edges)@[i]),
 //@ spec
         ensures
             // [received_edge_tombstones_mark_their_day] every reference tombstone applied from a peer marks the day it enters
             r is Ok ==> forall|i: int| 0 <= i < old(edges)@.len() ==> marked(*final(daily_log), (#[trigger] old(edges)@[i]).room_id, old(edges)@[i].src_entity@, spec_day(old(edges)@[i].deletion_date)),
             // [received_edge_tombstones_keep_marks]
             marks_superset(*old(daily_log), *final(daily_log)),
+            // [received_edge_deletion_always_recorded]{C11} every reference deletion record received from a peer is written to the deletion log, whether or not the reference is stored here
+            r is Ok ==> forall|i: int| 0 <= i < old(edges)@.len() ==> edge_tombstone_written(#[trigger] old(edges)@[i]),
 //@ end
 
 } // verus!
